@@ -45,9 +45,15 @@ def run(b, ps, tier, seed):
                     violations.append(P.violation(PROP, "stuck-at-quiescence",
                                                   "goroutines alive at quiescence %s, the model leaves senders=%d receivers=%d" % (dict(c), want[0], want[1]),
                                                   i, t, cfg, {"live": r2["live"], "prints": r2["prints"]}, d.model[i][m]["0"]))
+    pcov, not_typed = P.premise_check(b, d, seed, tier)
+    if not_typed and not violations:
+        violations.append(C.Violation("the premise tc_annotations_typed of the progress theorem fails on an accepted program of the fragment: %s" % [i for i, _ in not_typed[:3]],
+                                      {"property": PROP, "kind": "unproven", "no_longer_checks": [{"what": "premise check (static_typed_b on the annotated program)", "detail": not_typed[0][1][:800]}]},
+                                      found_input=False))
     cov = R.coverage(d, {"live_sets_seen": {str(k): v for k, v in live_hist.items()},
                          "runs_where_model_leaves_poised_processes": poised,
                          "deviations_confirmed": deviations, "cut_short_by_timer_then_ok_on_rerun": load_artefacts})
+    cov.update(pcov)
     return {"violations": violations, "known": [], "coverage": cov,
             "assumptions": P.COMMON_ASSUMPTIONS + ["a top-level negative provider nobody uses is poised (waits for a client that does not exist) and survives quiescence in every mode: the comparison is against the model's precise survivor set"],
             "trusted_extra": P.COMMON_TRUSTED}
